@@ -258,21 +258,26 @@ G("einsum_path", "np.einsum_path", pos=lambda c: c.f("ij,jk->ik", c.A((2, 3)), c
 # ---- comparisons / sets -----------------------------------------------------------------------------------
 def _near(c):
     a = c.raw()
-    b = a.copy()
-    if b.size and b.dtype.kind != "i":
-        b.flat[0] += 1e-9
-    return c.wrap(a), c.wrap(b)
+    x = c.wrap(a)
+
+    def other():
+        b = a.copy()
+        if b.size and b.dtype.kind != "i":
+            b.flat[0] += 1e-9
+        return c.wrap(b)
+
+    return x, c.second(x, other)
 
 
 G("close", "np.isclose np.allclose",
   pos=lambda c: c.f(*_near(c)),
   tol=lambda c: c.f(*_near(c), 0.0, 1e-12),
   tolkw=lambda c: c.f(*_near(c), rtol=1e-12, atol=0.0),
-  nan=lambda c: c.f(_with_nan(c), _with_nan(c), equal_nan=True))
+  nan=lambda c: (lambda a: c.f(a, c.second(a, lambda: _with_nan(c)), equal_nan=True))(_with_nan(c)))
 G("aeq", "np.array_equal np.array_equiv",
   pos=lambda c: c.f(*_near(c)),
-  same=lambda c: (lambda a: c.f(a, a.copy()))(c.A()))
-G("aeq2", "np.array_equal", nan=lambda c: c.f(_with_nan(c), _with_nan(c), equal_nan=True))
+  same=lambda c: (lambda a: c.f(a, c.second(a, a.copy)))(c.A()))
+G("aeq2", "np.array_equal", nan=lambda c: (lambda a: c.f(a, c.second(a, lambda: _with_nan(c)), equal_nan=True))(_with_nan(c)))
 G("set2", "np.union1d np.intersect1d np.setdiff1d np.setxor1d np.isin",
   pos=lambda c: c.f(c.A((4,), lo=-2, hi=2), c.A((3,), lo=-2, hi=2)))
 G("set_au", "np.intersect1d np.setdiff1d np.setxor1d np.isin",
